@@ -75,7 +75,20 @@ def reduce_failure(w, text, indent, kind):
     return "".join(core)
 
 
-def features(core):
+DANGLING = re.compile(r"[^\s,(\[{]\n[ \t]*[)\]}]")
+
+
+def dangling_close(det):
+    """the first pass printed a list on one line except for its closing bracket (`[ 1000, 5 + 2\\n] then [`): it measured the
+    line up to a forced line break further right, which the second pass sees as already broken"""
+    if not isinstance(det, dict) or "first" not in det or "second" not in det:
+        return False
+    first = re.sub(r"\|\|\|.*?\|\|\|", "|||", det["first"], flags=re.S)
+    second = re.sub(r"\|\|\|.*?\|\|\|", "|||", det["second"], flags=re.S)
+    return bool(DANGLING.search(first)) and not DANGLING.search(second)
+
+
+def features(core, det=None):
     """what the minimal failing program contains (decided on the reduced text)"""
     f = []
     if re.search(r"(//|#)[^\n]*\n?\s*[)\]}]", core):
@@ -88,6 +101,8 @@ def features(core):
         f.append("line-comment")
     if not f and nested_statement(core):
         f.append("local-or-assert-statement-inside-brackets")
+    if not f and dangling_close(det):
+        f.append("dangling-closing-bracket-on-first-pass")
     if "|||" in core and not f:
         f.append("crlf-text-block" if "\r\n" in core else "text-block")
     if not f:
@@ -125,10 +140,13 @@ def fixed_point(acc, w, build, text, origin):
             f, m = panic_sig(det)
             acc.violation({"oracle": "panic", "site": f, "msg": m}, {"text": text, "indent": indent, "build": build})
         else:
+            if origin == "supported-comment-position":
+                acc.violation({"oracle": kind + "@supported-comment-position"}, {"text": text, "indent": indent, "build": build, "result": det})
+                continue
             core = reduce_failure(w, text, indent, kind) if acc.n.get("reduced", 0) < 150 else text
             acc.inc("reduced")
             k2, d2 = fp_verdict(w, core, indent)
-            sig = {"oracle": kind, "features": features(core)}
+            sig = {"oracle": kind, "features": features(core, d2 if k2 == kind else det)}
             if isinstance(d2, dict) and "converges_on_third_pass" in d2:
                 sig["converges_on_third_pass"] = d2["converges_on_third_pass"]
             acc.violation(sig,
@@ -184,6 +202,9 @@ def shard(idx, n, tier, seed, builds, cli):
                     toks = w.call({"op": "lex", "code": t}).get("tokens", [])
                     for d, ncomments in fmtlib.decorate(t, toks, rng, 6 if tier == "quick" else 40):
                         fixed_point(acc, w, build, d, "decorated")
+                for t in runner.chunks(fmtlib.supported_comment_programs(), idx, n):
+                    fixed_point(acc, w, build, t, "supported-comment-position")
+                    acc.inc("supported_comment_position_programs")
         finally:
             w.close()
     # CLI: jrsonnet-fmt then jrsonnet-fmt --test accepts what the tool printed
